@@ -1,9 +1,9 @@
-import Uhppote.Driver.Order
+import Uhppote.Driver.OrderModel
 /-! `mdl_order`: the executable MODEL for the `order` family of streams only — it imports just the regenerated files
     that family needs, so a regenerated file that no longer compiles takes down only the streams that depend on it. -/
 open Uhppote
 
-def handlers : List (List String → Option String) := [Driver.Order.model]
+def handlers : List (List String → Option String) := [Driver.OrderModel.model]
 
 def handle (ts : List String) : String :=
   match handlers.findSome? (· ts) with
